@@ -3,6 +3,7 @@ package main
 // Evaluator for contract expressions (Go expression syntax + imp/iff/forall/exists/old/...).
 
 import (
+	"os"
 	"fmt"
 	"go/ast"
 	"go/constant"
@@ -931,6 +932,13 @@ func (ev *Eval) callExpr(n *ast.CallExpr) Value {
 	case "ncalls":
 		s, _ := strconv.Unquote(exprString(n.Args[0]))
 		key := x.prog.cs.expand(s)
+		if os.Getenv("GOCV_DEBUGCALLS") == "1" {
+			fmt.Fprintf(os.Stderr, "ncalls key=%q frame=%d:", key, ev.fr.id)
+			for c := ev.st.calls; c != nil; c = c.parent {
+				fmt.Fprintf(os.Stderr, " [%s f=%d top=%d]", c.key, c.frame, c.top)
+			}
+			fmt.Fprintln(os.Stderr)
+		}
 		return &Prim{T: IntLit(int64(ev.st.callCount(ev.fr.id, key)))}
 	case "funcid":
 		// funcid("pkg.(*T).name$1") : identity of a function / closure
